@@ -38,7 +38,8 @@ theorem C19_unsendable_harmless (s s' : CS) (sid : Nat) (h : step s (.sendBad si
 /-- **A failing write on the current link leads to DISCONNECTED**: it records a fault, which enables the DISCONNECTED report while CONNECTED, and releases the send lock -/
 theorem C19_write_failure (s s' : CS) (c sid : Nat) (h : step s (.writeFail c sid) = some s') (hst : s.st = .connected)
     (hc : s.conn = some c) :
-    s'.faults > 0 ∧ s'.lockHolder = none ∧ (step s' (.status .disconnected)).isSome = true :=
+    s'.faults > 0 ∧ s'.lockHolder = none ∧
+      ∃ s'', step s' (.writerClose c) = some s'' ∧ (step s'' (.status .disconnected)).isSome = true :=
   step_writeFail h hst hc
 
 /-- … whereas a failure on a link that has been replaced in the meantime is not a fault of the current link -/
@@ -52,16 +53,45 @@ theorem C19_one_link (evs : List Ev) (s : CS) (h : runTrace init evs = some s) :
     ∀ e1 ∈ s.wire, ∀ e2 ∈ s.wire, e1.2.1 = e2.2.1 → e1.1 = e2.1 :=
   (reach_inv h).oneLink
 
+/-- **A link that is given up is shut**: DISCONNECTED is only reported for a fault seen on the current link, and only once
+that link has been shut -/
+theorem C19_fault_shuts_link (s s' : CS) (h : step s (.status .disconnected) = some s') :
+    ∃ c, s.conn = some c ∧ c ∈ s.faulted ∧ c ∈ s'.writerClosed :=
+  step_status_disconnected h
+
+/-- a fault is only ever recorded for a link that exists -/
+theorem C19_faulted_links_exist (evs : List Ev) (s : CS) (h : runTrace init evs = some s) : ∀ c ∈ s.faulted, c < s.nextConn :=
+  (reach_inv3 h).faulted
+
+/-- **No sender is left behind on a replaced link**: in every accepted trace, every link that was reported CONNECTED and is
+no longer the current one has been shut, and no write to a shut link is accepted (`C19_no_write_after_shut`).  (What the
+model cannot state is the liveness half — that a sender suspended in drain() on the shut link is woken with an error and
+releases the send lock; that is asyncio's contract for a closed transport, exercised by the `stuck` drain scenarios and the
+replay `C19/send-blocked/replaced-link` on real sockets) -/
+theorem C19_replaced_link_shut (evs : List Ev) (s : CS) (h : runTrace init evs = some s) :
+    ∀ c ∈ s.everConnected, s.conn ≠ some c → c ∈ s.writerClosed :=
+  (reach_inv2 h).main
+
+/-- … and no packet is written to a link after it has been shut -/
+theorem C19_no_write_after_shut (s s' : CS) (c sid idx : Nat) (h : step s (.write c sid idx) = some s') : c ∉ s.writerClosed :=
+  step_write_open h
+
 -- non-vacuity: two concurrent 2-packet sends whose drains suspend
 example : (runTrace init [.connCall, .implStart, .implOk 1, .status .connected, .connReturn, .sendCall 1, .write 1 1 0, .sendCall 2,
     .write 1 1 1, .sendReturn 1, .write 1 2 0, .write 1 2 1, .sendReturn 2]).map (fun s => sids s.wire) = some [1, 1, 2, 2] := by decide +kernel
--- a sender suspended after packet 0 while the client reconnects finishes on the OLD link; writing packet 1 to the new link is not a behaviour of the model
+-- a sender suspended after packet 0 when the link is lost: the link is shut before DISCONNECTED is reported, its second packet fails
+-- on the OLD link (and releases the lock) while the client has reconnected; writing it to the old or to the new link is not a behaviour of the model
 example : (runTrace init [.connCall, .implStart, .implOk 1, .status .connected, .connReturn, .recvStart 1, .sendCall 1, .write 1 1 0,
-    .envEof 1, .status .disconnected, .recvExit 1 false, .connCall, .implStart, .implOk 2, .status .connected, .connReturn, .recvStart 2,
-    .write 1 1 1, .sendReturn 1]).map (fun s => s.wire) = some [(1, 1, 0), (1, 1, 1)] := by decide +kernel
+    .envEof 1, .writerClose 1, .status .disconnected, .recvExit 1 false, .connCall, .implStart, .implOk 2, .status .connected, .connReturn, .recvStart 2,
+    .drainFail 1, .sendReturn 1, .sendCall 2, .write 2 2 0]).map (fun s => (s.wire, s.lockHolder, s.st)) = some ([(1, 1, 0), (2, 2, 0)], some 2, .connected) := by decide +kernel
 example : runTrace init [.connCall, .implStart, .implOk 1, .status .connected, .connReturn, .recvStart 1, .sendCall 1, .write 1 1 0,
-    .envEof 1, .status .disconnected, .recvExit 1 false, .connCall, .implStart, .implOk 2, .status .connected, .connReturn, .recvStart 2,
+    .envEof 1, .writerClose 1, .status .disconnected, .recvExit 1 false, .connCall, .implStart, .implOk 2, .status .connected, .connReturn, .recvStart 2,
+    .write 1 1 1] = none := by decide +kernel
+example : runTrace init [.connCall, .implStart, .implOk 1, .status .connected, .connReturn, .recvStart 1, .sendCall 1, .write 1 1 0,
+    .envEof 1, .writerClose 1, .status .disconnected, .recvExit 1 false, .connCall, .implStart, .implOk 2, .status .connected, .connReturn, .recvStart 2,
     .write 2 1 1] = none := by decide +kernel
+-- DISCONNECTED cannot be reported while the faulted link is still open
+example : runTrace init [.connCall, .implStart, .implOk 1, .status .connected, .connReturn, .recvStart 1, .envEof 1, .status .disconnected] = none := by decide +kernel
 -- and the interleaved order is not a behaviour of the model
 example : runTrace init [.connCall, .implStart, .implOk 1, .status .connected, .connReturn, .sendCall 1, .write 1 1 0, .sendCall 2,
     .write 1 2 0] = none := by decide +kernel
